@@ -4,7 +4,7 @@ Catch matrix for the seeded changes under /verif/seeded: each change is applied 
 (under /root/scratch/slots/<i>, never to /repo itself), a copy of the harness is built against that clone, and the
 correspondence + oracle of the relevant properties are evaluated.  Several slots run in parallel.
 Prints one line per change; the scratch directories are removed at the end."""
-import os, shutil, subprocess, sys
+import os, re, shutil, subprocess, sys
 
 VERIF = os.path.dirname(os.path.dirname(os.path.abspath(__file__)))
 SLOTS = "/root/scratch/slots"
@@ -22,8 +22,13 @@ def worker(slot, seed, own, names):
         files = [l[6:] for l in open(patch).read().splitlines() if l.startswith("+++ b/")]
         pids = sorted(set((PARSER if any("parser" in f for f in files) else []) +
                           (TRANSPORT if any("parser" not in f for f in files) else [])))
+        ownp = d[:3]
+        nf = os.path.join(os.path.dirname(patch), "notes.txt")
+        if not re.match(r"C\d\d", ownp) and os.path.exists(nf):
+            m = re.search(r"PROPERTY:\s*(C\d\d)", open(nf).read())
+            ownp = m.group(1) if m else "?"
         if own:
-            pids = [d[:3]]
+            pids = [ownp]
         subprocess.check_call(["git", "-C", repo, "apply", patch])
         res = {}
         try:
@@ -41,7 +46,7 @@ def worker(slot, seed, own, names):
         finally:
             subprocess.check_call(["git", "-C", repo, "checkout", "--", "."])
         print(d, "seed=%d" % seed, " ".join("%s=%s" % kv for kv in sorted(res.items()) if kv[1] != "-") or "(nothing fired)",
-              "| own property:", res.get(d[:3], "?"), flush=True)
+              "| own property (%s):" % ownp, res.get(ownp, "?"), flush=True)
 
 
 def main():
